@@ -587,8 +587,23 @@ func isClosedAtom(v ssa.Value) bool {
 				if v, isC := an.BoolConst(res); isC && !v {
 					continue // e.g. `if err == nil { return false }`
 				}
-				inner, ok := res.(*ssa.Call)
-				if !ok || inner.Common().StaticCallee() == f || !isClosedAtom(inner) {
+				// `return err != nil && <test>(err)`: a phi of false and the test
+				vals := []ssa.Value{res}
+				if phi, isPhi := res.(*ssa.Phi); isPhi {
+					vals = phi.Edges
+				}
+				nTest := 0
+				for _, rv := range vals {
+					if v, isC := an.BoolConst(rv); isC && !v {
+						continue
+					}
+					inner, ok := rv.(*ssa.Call)
+					if !ok || inner.Common().StaticCallee() == f || !isClosedAtom(inner) {
+						all = false
+					}
+					nTest++
+				}
+				if nTest == 0 {
 					all = false
 				}
 			}
